@@ -18,7 +18,7 @@ LEX = {'word': 'abc', 'star': '*', 'decimal': '1.50', 'int0': '007', 'estr': "''
        'bstr': "'a\\'b'", 'dq': '"d q"', 'var': '@v', 'sysvar': '@@sv', 'qvar': '@`a b`', 'paren': '( abc , ( 1 ) )',
        'eq': '=', 'comma': ',', 'param': '?', 'nlstr': "'l1\n  l2'",
        'dq2sq': '"rock \'\'n\'\' roll"', 'semistr': "'s1;s2'", 'semibq': '`a;b`'}
-SEP = {'sp': ' ', 'sp2': '   ', 'nl': '\n', 'nlind': '\n    ', 'blockcmt': ' /* c */ ', 'linecmt': ' -- c\n', 'nl2': '\n\n'}
+SEP = {'sp': ' ', 'sp2': '   ', 'nl': '\n', 'nlind': '\n    ', 'blockcmt': ' /* c */ ', 'linecmt': ' -- c\n', 'nl2': '\n\n', 'none': ''}
 TEMPLATES = [
     ('create_model', 'CREATE MODEL m FROM db (', ') PREDICT y', lambda q: q.query_str),
     ('create_predictor', 'CREATE PREDICTOR m FROM db (', ') PREDICT y', lambda q: q.query_str),
@@ -151,7 +151,15 @@ def run(ctx):
     inners = []
     for ks, sep in gen:
         s = SEP[sep]
+        if sep == 'none':
+            # written without gaps only where that still lexes as the same tokens
+            lx_, ok_ = lexemes('SELECT' + ''.join(LEX[k] for k in ks) + ' c d')
+            if not ok_ or [x[1] for x in lx_] != ['SELECT'] + [LEX[k] for k in ks] + ['c', 'd']:
+                continue
         inners.append('SELECT' + ''.join(s + LEX[k] for k in ks))
+        if sep in ('none', 'sp', 'nl'):
+            # ... followed by two more words on the same line (what follows a token that spans lines / was glued to its neighbour)
+            inners.append('SELECT' + ''.join(s + LEX[k] for k in ks) + (s or ' ') + 'c d')
     inners += VALID_INNER
     work = []
     for i, inner in enumerate(inners):
